@@ -232,6 +232,17 @@ Section SstOf.
      the documented meaning (odesugar / fill_pure / atom_value) expects ---- *)
   Definition dummy : sterm := SAtom 0 [].
 
+  (* total version (the dummy is never reached for well-formed terms: sst_of_desugar) *)
+  Definition sst (t : term) : sterm := match sst_of t with Some s => s | None => dummy end.
+
+  (* every atom of a surface tree has a non-empty text *)
+  Fixpoint snonempty (s : sterm) : bool :=
+    match s with
+    | SAtom arm name => nonempty (atom_prefix E arm ++ name)
+    | SSet _ _ _ items _ | SComp _ _ _ items _ => forallb snonempty items
+    | SStmt _ _ _ _ _ x y => snonempty x && snonempty y
+    end.
+
   Definition cover_name (c : name_ctor) : bool :=
     is_some (sst_atom (fmt_arm_name c) (AIName c) []) && match setnamek_name c with SnReplace => true | _ => false end.
   Definition cover_unit (c : unit_ctor) : bool := is_some (sst_atom (fmt_arm_unit c) (AIUnit c) []).
